@@ -146,7 +146,7 @@ def run_kl(ctx):
         data = dict(n=n, K=K, errors=errs, seed=cfg['s'])
         ctx.case(('kl', n, K, cfg['s']))
         try:
-            ops = [[([qq], _P[c]) for qq, c in enumerate(lt) if c] for lt in errs]
+            ops = [[([qq], _P[c]) for w in err for qq, c in enumerate(w) if c] for err in errs]       # an error = list of words applied in list order
             ip = numqi.qec.knill_laflamme_inner_product(q, ops)
             want = np.array([[[complex(a[0], a[1]) for a in row] for row in m] for m in obs['ip']])
             if core.gt(np.abs(ip - want).max(), TOL):
